@@ -220,27 +220,35 @@ def check_case(ctx, case):
         xs = x0.astype(np.float32)
         ys = y0.astype(np.float32)
         if xs.sum() > 0 and ys.sum() > 0 and np.isfinite(xs).all() and np.isfinite(ys).all():
-            i1 = np.nonzero(xs)[0].astype(np.int32)
-            i2 = np.nonzero(ys)[0].astype(np.int32)
-            d1 = xs[i1]
-            d2 = ys[i2]
             xd = xs.astype(np.float64)
             yd = ys.astype(np.float64)
-            for name, sf in sparse_fns.items():
+            import zlib
+            rz = np.random.RandomState(zlib.crc32(xs.tobytes() + ys.tobytes()))
+            encodings = [("", np.nonzero(xs)[0].astype(np.int32), np.nonzero(ys)[0].astype(np.int32))]
+            if (xs == 0).any() or (ys == 0).any():
+                # the same vectors with some of their zeros stored explicitly (a legal sparse encoding)
+                k1 = np.sort(np.concatenate([np.nonzero(xs)[0], np.nonzero((xs == 0) & (rz.rand(len(xs)) < 0.5))[0]])).astype(np.int32)
+                k2 = np.sort(np.concatenate([np.nonzero(ys)[0], np.nonzero((ys == 0) & (rz.rand(len(ys)) < 0.5))[0]])).astype(np.int32)
+                encodings.append(("/explicit-zeros", k1, k2))
+            for (enc, i1, i2), (name, sf) in [(e_, n_) for e_ in encodings for n_ in sparse_fns.items()]:
+                d1 = xs[i1]
+                d2 = ys[i2]
+                if enc:
+                    ctx.count("sparse_vs_dense_explicit_zeros")
                 ops = (i1.copy(), d1.copy(), i2.copy(), d2.copy())
                 s, e = _call(sf, *ops)
                 if not all(np.array_equal(u, v) for u, v in zip(ops, (i1, d1, i2, d2))):
-                    viol("sparse_" + name, "modifies-operands", {"i1": ops[0], "expected_i1": i1})
+                    viol("sparse_" + name, "modifies-operands" + enc, {"i1": ops[0], "expected_i1": i1})
                     continue
                 d, e2 = _call(dense_fns[name], xd.copy(), yd.copy())
                 ctx.count("sparse_vs_dense")
                 if e:
-                    viol("sparse_" + name, "raises", e)
+                    viol("sparse_" + name, "raises" + enc, e)
                     continue
                 if e2 or d is None or not np.isfinite(d):
                     continue  # dense side judged above
                 if not np.isfinite(s):
-                    viol("sparse_" + name, "not-finite", s)
+                    viol("sparse_" + name, "not-finite" + enc, s)
                     continue
                 # float32 accumulation bound: sums of n terms carry <= n*2^-24 relative error each
                 tol_abs = 4.0 * (len(np.union1d(i1, i2)) + 4) * 2.0**-24
@@ -256,7 +264,7 @@ def check_case(ctx, case):
                         if s1 is not None and dd1 is not None and abs(s1 - dd1) <= 1e-5 * abs(dd1) + tol_abs:
                             viol("sparse_" + name, "absolute-eps-small-mass", {"sparse": s, "dense": d, "mass": min(sx, sy)})
                             continue
-                    viol("sparse_" + name, "differs-from-dense", {"sparse": s, "dense": d})
+                    viol("sparse_" + name, "differs-from-dense" + enc, {"sparse": s, "dense": d})
     elif case["kind"] == "triple":
         x, y, z = (np.array(case[k], dtype=np.float64) for k in "xyz")
         for name in ("hellinger", "total_variation", "kantorovich1d"):
